@@ -10,7 +10,16 @@ which branch is returned, uuids in order, positions / velocities / sizes (1e-9),
 orientation (from `yaw_pitch_roll`, modulo 2*pi), `unix_time` of the frame and of every object,
 `frame_id` of every object, ego pose of the interpolated frame, error kinds.
 
-Oracle (independent of the model, exact `Fraction` arithmetic): arg-min and tolerance recomputed
+Every case is a short CALL SEQUENCE on ONE list of loaded frames (the primary query, the same query again, 1..3
+other queries in the same / a neighbouring interval incl. the earlier frame's own stamp, the primary query once
+more; functions or one manager).  Each lookup of the sequence is compared with the model's answer for that query
+(the model is a pure function of the frames as loaded), and around every lookup a full snapshot of the loaded
+frames (stamps, names, every object's uuid / stamp / frame_id / position / orientation / velocity / size, every
+registered transform's key / src / dst / matrix / position / rotation, identity and order of the list) is taken.
+
+Oracle (independent of the model, exact `Fraction` arithmetic), for EVERY lookup of the sequence and always
+with respect to the frames as described by the case (= freshly built data): the lookup left the loaded frames
+exactly as they were; a query asked earlier in the sequence gets the answer it got then; arg-min and tolerance recomputed
 from the timestamps; neighbours = max{time <= t}, min{time > t}; gating; for paired uuids the
 position is `p1 + a (p2 - p1)` with `a = (t - t1)/(t2 - t1)` in [0, 1] and the yaw is `a` of the way
 along the shortest arc; unpaired uuids are kept with their own pose; frame time = query time.
@@ -46,7 +55,10 @@ RULE = (
     "uuids (appearing / disappearing / reordered, rarely duplicated or None), dyadic positions / sizes / velocities, yaws "
     "k/64 half-turns incl. equal, nearly equal, antipodal and beyond +-1; ego poses = rational unit complex + translation; "
     "queries before / on / between / after frames; tolerances on and around the two actual gaps (dt-1, dt, dt+1), 0, -1, "
-    "huge; each through the function or the manager.  Non-trivial = at least one frame and no error outcome; distinct = "
+    "huge; each through the function or the manager.  Every case is a call sequence on one frame list: primary query, "
+    "the same again, 1..3 other queries (same interval incl. the earlier frame's stamp / neighbouring interval / anywhere, "
+    "tolerance mostly admitting both neighbours, 20% in the other lookup mode), the primary query again; direct "
+    "interpolation of a pair is repeated the same way.  Non-trivial = at least one frame and no error outcome; distinct = "
     "distinct canonical case"
 )
 TRUSTED = [
@@ -59,6 +71,9 @@ TRUSTED = [
     "numpy matrix products and copy.deepcopy",
 ]
 ASSUMPTIONS = [
+    "lookups are read-only and repeatable (a lookup leaves every loaded frame, object and registered transform as it was; "
+    "the same query on the same loaded frames gets the same answer): demanded on timelines inside the property's "
+    "quantifier; attributes of loaded frames other than those in the snapshot (raw_data, private caches) are not watched",
     "orientations and ego poses are yaw-only (slerp is modelled on the yaw angle in half-turns); roll / pitch are not generated",
     "timestamps and tolerances are Python ints",
     "3-D DynamicObject only (DynamicObject2D frames have camera frame ids, which convert_objects_to_global rejects)",
@@ -68,6 +83,7 @@ ASSUMPTIONS = [
 ]
 
 NONE_UUID = 999
+N_QUICK, N_THOROUGH = 4000, 40000
 TWO_PI = 2 * math.pi
 F = Fraction
 
@@ -171,23 +187,91 @@ def _canon_obj(o):
     }
 
 
-def run_impl(case):
+def _steps(case):
+    """the lookups of a case in call order: the primary query (case['mode'/'t'/'thr']) and then case['more']"""
+    return [{"mode": case["mode"], "t": case["t"], "thr": case["thr"]}] + list(case.get("more") or [])
+
+
+def _sub(case, st):
+    """the single-lookup case of one step (same frame list)"""
+    return dict(case, mode=st["mode"], t=st["t"], thr=st.get("thr", 0), more=[])
+
+
+def _qkey(st):
+    return (st["mode"], st["t"], st.get("thr", 0))
+
+
+def _fid_str(x):
+    return str(getattr(x, "value", x))
+
+
+def _snap_obj(o):
+    s = o.state
+    return (o.pointcloud_num, o.uuid, o.unix_time, _fid_str(o.frame_id), tuple(map(float, s.position)),
+            tuple(s.orientation.elements.tolist()), None if s.velocity is None else tuple(map(float, s.velocity)),
+            tuple(map(float, s.size)))
+
+
+def _snap_tf(tr):
+    items = []
+    for k, m in tr.items():
+        items.append((_fid_str(k.src), _fid_str(k.dst), _fid_str(m.src), _fid_str(m.dst), tuple(m.matrix.ravel().tolist()),
+                      tuple(map(float, m.position)), tuple(m.rotation.elements.tolist())))
+    items.sort(key=lambda x: x[:2])
+    return tuple(items)
+
+
+def _snapshot(frames):
+    """everything a lookup may read of the loaded frames: stamps, names, every object's id / uuid / stamp / frame_id /
+    position / orientation / velocity / size, every registered transform (key, src, dst, matrix, position, rotation)"""
+    return tuple((f.unix_time, f.frame_name, tuple(_snap_obj(o) for o in f.objects), _snap_tf(f.transforms)) for f in frames)
+
+
+_SNAP_OBJ = ("harness id", "uuid", "unix_time", "frame_id", "position", "orientation", "velocity", "size")
+_SNAP_TF = ("key src", "key dst", "src", "dst", "matrix", "position", "rotation")
+
+
+def _snap_diff(a, b):
+    """first difference of two snapshots, in words"""
+    if len(a) != len(b):
+        return f"number of loaded frames {len(a)} -> {len(b)}"
+    for i, (fa, fb) in enumerate(zip(a, b)):
+        if fa == fb:
+            continue
+        if fa[0] != fb[0]:
+            return f"loaded frame {i}: unix_time {fa[0]} -> {fb[0]}"
+        if fa[1] != fb[1]:
+            return f"loaded frame {i}: frame_name {fa[1]} -> {fb[1]}"
+        if len(fa[2]) != len(fb[2]):
+            return f"loaded frame {i}: number of objects {len(fa[2])} -> {len(fb[2])}"
+        for j, (oa, ob) in enumerate(zip(fa[2], fb[2])):
+            for name, x, y in zip(_SNAP_OBJ, oa, ob):
+                if x != y:
+                    return f"loaded frame {i}, object {j} (uuid {oa[1]}): {name} {x} -> {y}"
+        if [t[:2] for t in fa[3]] != [t[:2] for t in fb[3]]:
+            return f"loaded frame {i}: registered transforms {[t[:2] for t in fa[3]]} -> {[t[:2] for t in fb[3]]}"
+        for ta, tb in zip(fa[3], fb[3]):
+            for name, x, y in zip(_SNAP_TF, ta, tb):
+                if x != y:
+                    return f"loaded frame {i}: transform {ta[0]}->{ta[1]}: {name} {x} -> {y}"
+    return "loaded frames changed"
+
+
+def _lookup(case, frames, st, m):
+    """one real lookup, canonical result"""
     from perception_eval.common.dataset import get_interpolated_now_frame, get_now_frame, interpolate_ground_truth_frames
     from perception_eval.common.schema import FrameID
 
-    frames = _build(case)
-    mode, t = case["mode"], case["t"]
+    mode, t = st["mode"], st["t"]
     try:
         if mode == "direct":
             r = interpolate_ground_truth_frames(frames[0], frames[1], t)
-        elif case["via"] == "manager":
-            m = _manager(case["frame"])
-            m.ground_truth_frames = frames
-            r = m.get_ground_truth_now_frame(t, case["thr"], mode == "interp")
+        elif m is not None:
+            r = m.get_ground_truth_now_frame(t, st["thr"], mode == "interp")
         elif mode == "now":
-            r = get_now_frame(frames, t, case["thr"])
+            r = get_now_frame(frames, t, st["thr"])
         else:
-            r = get_interpolated_now_frame(frames, t, case["thr"])
+            r = get_interpolated_now_frame(frames, t, st["thr"])
     except Exception as e:
         return {"err": type(e).__name__}
     if r is None:
@@ -203,6 +287,35 @@ def run_impl(case):
     except Exception as ex:  # pragma: no cover
         out["ego"] = {"err": type(ex).__name__}
     return out
+
+
+def run_impl(case):
+    """the whole call sequence on ONE list of loaded frames; after every lookup the loaded frames are compared with
+    their snapshot from before that lookup (`mut`: None or the first difference)"""
+    frames = _build(case)
+    m = None
+    if case["via"] == "manager" and case["mode"] != "direct":
+        m = _manager(case["frame"])
+        m.ground_truth_frames = frames
+    ids = [id(f) for f in frames]
+    prev = _snapshot(frames)
+    outs, mut = [], []
+    for st in _steps(case):
+        outs.append(_lookup(case, frames, st, m))
+        why = None
+        if m is not None and m.ground_truth_frames is not frames:
+            why = "the manager's ground_truth_frames list was replaced"
+            m.ground_truth_frames = frames
+        elif [id(f) for f in frames] != ids:
+            why = f"the list of loaded frames was changed ({len(ids)} frames before, {len(frames)} after, or reordered)"
+            ids = [id(f) for f in frames]
+        else:
+            cur = _snapshot(frames)
+            if cur != prev:
+                why = _snap_diff(prev, cur)
+                prev = cur
+        mut.append(why)
+    return {"steps": outs, "mut": mut}
 
 
 # ----------------------------------------------------------------------------- model side
@@ -226,15 +339,32 @@ def _model_frames(case):
     return fs
 
 
+def _unique_queries(case):
+    """(distinct queries in order of first use, index of each step's query in that list) -- the model is a pure function
+    of (frames, query), so one request serves every repetition"""
+    uniq, idx, pos = [], [], {}
+    for st in _steps(case):
+        k = _qkey(st)
+        if k not in pos:
+            pos[k] = len(uniq)
+            uniq.append(st)
+        idx.append(pos[k])
+    return uniq, idx
+
+
 def model_requests(case, out):
     fs = _model_frames(case)
-    if case["mode"] == "direct":
-        return [{"op": "direct", "frames": fs[:2], "t": case["t"]}]
-    if case["via"] == "manager":
-        return [{"op": "manager", "frames": fs, "t": case["t"], "thr": case["thr"], "interpolate": case["mode"] == "interp"}]
-    if case["mode"] == "now":
-        return [{"op": "now", "frames": fs, "t": case["t"], "thr": case["thr"]}]
-    return [{"op": "interp", "frames": fs, "t": case["t"], "thr": case["thr"]}]
+    reqs = []
+    for st in _unique_queries(case)[0]:
+        if st["mode"] == "direct":
+            reqs.append({"op": "direct", "frames": fs[:2], "t": st["t"]})
+        elif case["via"] == "manager":
+            reqs.append({"op": "manager", "frames": fs, "t": st["t"], "thr": st["thr"], "interpolate": st["mode"] == "interp"})
+        elif st["mode"] == "now":
+            reqs.append({"op": "now", "frames": fs, "t": st["t"], "thr": st["thr"]})
+        else:
+            reqs.append({"op": "interp", "frames": fs, "t": st["t"], "thr": st["thr"]})
+    return reqs
 
 
 def _wrap_pi(x):
@@ -363,8 +493,26 @@ def _neighbour_idx(case):
     return b, a
 
 
+def _step_tag(k, steps):
+    st = steps[k]
+    q = f"{st['mode']} t={st['t']}" + ("" if st["mode"] == "direct" else f" tol={st.get('thr')}")
+    return f"lookup #{k + 1} of {len(steps)} on one frame list ({q}): " if len(steps) > 1 else ""
+
+
 def compare(case, out, resps):
-    r = resps[0]
+    """every lookup of the sequence against the model's answer for that query"""
+    if "steps" not in out:
+        return f"the harness could not run the case: {_brief(out)}"
+    steps = _steps(case)
+    _, idx = _unique_queries(case)
+    for k, (st, o) in enumerate(zip(steps, out["steps"])):
+        d = _compare1(_sub(case, st), o, resps[idx[k]])
+        if d:
+            return _step_tag(k, steps) + d
+    return None
+
+
+def _compare1(case, out, r):
     if "err" in out or "err" in r:
         return None if out.get("err") == r.get("err") else f"impl {_brief(out)} != model {_brief(r)}"
     if r.get("none"):
@@ -397,8 +545,12 @@ def _brief(o):
 
 def _in_quantifier(case):
     """time-ordered, ego poses present, base_link/map objects, uuids unique per frame, t within the unit guard"""
+    return case["t"] <= 10 ** 17 and _frames_in_quantifier(case)
+
+
+def _frames_in_quantifier(case):
     fs = case["frames"]
-    if not fs or case["t"] > 10 ** 17:
+    if not fs:
         return False
     ts = [f["time"] for f in fs]
     if any(x > y for x, y in zip(ts, ts[1:])):
@@ -450,7 +602,64 @@ def _check_objects(case, out, ib, ia, a):
     return None
 
 
+def _same_answer(a, b):
+    """two answers to the same query on the same loaded frames (None = the same)"""
+    if "err" in a or "err" in b:
+        return None if a.get("err") == b.get("err") else f"{_brief(a)} first, {_brief(b)} later"
+    if a["res"] != b["res"] or a.get("idx") != b.get("idx"):
+        return f"{_brief(a)} first, {_brief(b)} later"
+    if a["res"] != "interp":
+        return None
+    if a["time"] != b["time"]:
+        return f"frame stamped {a['time']} first, {b['time']} later"
+    oa = {o["uuid"]: o for o in a["objs"]}
+    ob = {o["uuid"]: o for o in b["objs"]}
+    if len(a["objs"]) != len(b["objs"]) or set(oa) != set(ob):
+        return f"uuids {[o['uuid'] for o in a['objs']]} first, {[o['uuid'] for o in b['objs']]} later"
+    for u, x in oa.items():
+        y = ob[u]
+        for k in ("time", "frame"):
+            if x[k] != y[k]:
+                return f"uuid {u}: {k} {x[k]} first, {y[k]} later"
+        for k in ("pos", "size", "vel"):
+            if not _vec_close(x[k], y[k]):
+                return f"uuid {u}: {k} {x[k]} first, {y[k]} later"
+        if abs(_wrap_pi(x["yaw"] - y["yaw"])) > 1e-9:
+            return f"uuid {u}: yaw {x['yaw']} rad first, {y['yaw']} rad later"
+    ea, eb = a.get("ego", {}), b.get("ego", {})
+    if "err" in ea or "err" in eb:
+        return None if ea.get("err") == eb.get("err") else f"ego pose {ea} first, {eb} later"
+    if not _vec_close(ea["pos"], eb["pos"]) or abs(_wrap_pi(ea["yaw"] - eb["yaw"])) > 1e-9:
+        return f"ego pose of the interpolated frame {ea} first, {eb} later"
+    return None
+
+
 def oracle(case, out):
+    """the property for every lookup of the sequence, each judged on the frames AS LOADED (the case description, i.e.
+    freshly built data): (1) the single-lookup statement, (2) the lookup left the loaded frames as they were,
+    (3) a query asked before gets the answer it got before"""
+    if "steps" not in out:
+        return f"the harness could not run the case: {_brief(out)}"
+    steps = _steps(case)
+    state = _frames_in_quantifier(case)
+    first = {}
+    for k, (st, o) in enumerate(zip(steps, out["steps"])):
+        why = _oracle1(_sub(case, st), o)
+        if why:
+            return _step_tag(k, steps) + why
+        if not state:
+            continue
+        if out["mut"][k]:
+            return _step_tag(k, steps) + "the lookup modified the loaded frames: " + out["mut"][k]
+        j = first.setdefault(_qkey(st), k)
+        if j != k:
+            why = _same_answer(out["steps"][j], o)
+            if why:
+                return _step_tag(k, steps) + f"the same query was lookup #{j + 1} and the answers differ: {why}"
+    return None
+
+
+def _oracle1(case, out):
     if not _in_quantifier(case):
         return None
     fs = case["frames"]
@@ -619,6 +828,46 @@ def _gen_thr(rng, ts, t):
     return rng.choice(cands)
 
 
+def _both_thr(rng, s, t):
+    """a tolerance that admits both neighbours of t (those that exist)"""
+    le = [x for x in s if x <= t]
+    gt = [x for x in s if x > t]
+    d = max(([t - max(le)] if le else []) + ([min(gt) - t] if gt else []) + [0])
+    return rng.choice([d, d, d + 1, max(d, 75_000), 10 ** 9])
+
+
+def _gen_more(rng, ts, mode, t, thr):
+    """the rest of the call sequence after the primary query q0:  q0 again, 1..3 other queries (same interval incl. its
+    earlier frame's own stamp, a neighbouring interval, anywhere; now and then the other lookup mode), q0 again"""
+    q0 = {"mode": mode, "t": t, "thr": thr}
+    if rng.random() < 0.06:
+        return [dict(q0)]
+    others = []
+    if mode == "direct":
+        lo, hi = min(ts[:2]), max(ts[:2])
+        for _ in range(rng.randint(1, 2)):
+            others.append({"mode": "direct", "t": rng.choice([lo, hi, (lo + hi) // 2, rng.randint(lo, hi)]), "thr": 0})
+    else:
+        s = sorted(set(ts))
+        for _ in range(rng.randint(1, 3)):
+            m2 = mode if rng.random() < 0.8 else ("now" if mode == "interp" else "interp")
+            k = rng.random()
+            if len(s) < 2 or k > 0.85:
+                t2, _ = _gen_query(rng, ts)
+                cls = "any"
+            else:
+                i = max(0, min(len(s) - 2, sum(1 for x in s if x <= t) - 1))
+                cls = "same"
+                if k > 0.5 and len(s) > 2:
+                    i = rng.choice([j for j in (i - 1, i + 1) if 0 <= j <= len(s) - 2])
+                    cls = "neighbour"
+                lo, hi = s[i], s[i + 1]
+                t2 = rng.choice([lo, lo, min(lo + 1, hi - 1), (lo + hi) // 2, hi - 1, rng.randint(lo, hi - 1)])
+            thr2 = _both_thr(rng, s, t2) if rng.random() < 0.65 else _gen_thr(rng, ts, t2)
+            others.append({"mode": m2, "t": t2, "thr": thr2, "cls": cls})
+    return [dict(q0)] + others + [dict(q0)]
+
+
 def _gen_case(rng, tier):
     k = rng.random()
     kind = "sorted"
@@ -681,12 +930,15 @@ def _gen_case(rng, tier):
         if rng.random() < 0.015:
             t, qc = 10 ** 17 + rng.choice([0, 1, 1000]), "guard"
         thr = _gen_thr(rng, ts, t)
+        if mode == "interp" and qc in ("between", "on") and rng.random() < 0.3:
+            thr = _both_thr(rng, sorted(set(ts)), t)
     return {"kind": "lookup", "via": rng.choice(["func", "manager"]) if mode != "direct" else "func", "mode": mode,
-            "frame": frame, "timeline": kind, "qclass": qc, "frames": frames, "t": t, "thr": thr}
+            "frame": frame, "timeline": kind, "qclass": qc, "frames": frames, "t": t, "thr": thr,
+            "more": _gen_more(rng, ts, mode, t, thr)}
 
 
 def generate(rng, tier):
-    n = 5000 if tier == "quick" else 60000
+    n = N_QUICK if tier == "quick" else N_THOROUGH
     return [_gen_case(rng, tier) for _ in range(n)]
 
 
@@ -703,9 +955,13 @@ def _e(x=0, y=0, c="1", s="0"):
     return {"c": c, "s": s, "trans": [core.q(F(x)), core.q(F(y)), "0"]}
 
 
-def _case(mode, frames, t, thr, via="func", frame="base_link", timeline="sorted", qclass="corpus"):
+def _case(mode, frames, t, thr, via="func", frame="base_link", timeline="sorted", qclass="corpus", more=()):
     return {"kind": "lookup", "via": via, "mode": mode, "frame": frame, "timeline": timeline, "qclass": qclass,
-            "frames": frames, "t": t, "thr": thr}
+            "frames": frames, "t": t, "thr": thr, "more": [dict(m) for m in more]}
+
+
+def _q(mode, t, thr=0):
+    return {"mode": mode, "t": t, "thr": thr}
 
 
 def corpus():
@@ -750,12 +1006,98 @@ def corpus():
     noego = [dict(two[0], ego=None), two[1]]
     cs.append(_case("interp", noego, 1500, 1000, qclass="between"))
     cs.append(_case("interp", noego, 1500, 400, qclass="between"))
+    # call sequences on ONE frame list: lookups leave the loaded frames alone and are repeatable.  The ego drives and
+    # turns between the frames; objects w.r.t. base_link (converted with the ego pose of their frame) and w.r.t. map.
+    drive = [{"time": 1_000_000, "ego": _e(10, -5, "4/5", "3/5"), "objs": [_o(1, 12, 3, "-1/8"), _o(2, -6, -2, "15/16"), _o(3, 1, 1)]},
+             {"time": 1_100_000, "ego": _e(18, -2, "-3/5", "4/5"), "objs": [_o(1, 9, 1, "-3/8"), _o(2, -8, "-3/2", "-31/32"), _o(4, 0, 7)]},
+             {"time": 1_200_000, "ego": _e(20, 6, "-1", "0"), "objs": [_o(2, -9, 0, "-7/8"), _o(1, 5, 1, "-1/2")]},
+             {"time": 1_300_000, "ego": _e(12, 9, "0", "-1"), "objs": [_o(1, 2, 1, "-5/8")]}]
+    tol = 100_000
+    for frame in ("base_link", "map"):
+        for via in ("func", "manager"):
+            for fl in (drive[:2], drive):
+                # same query twice, other queries in the interval, on the earlier frame, just before the later one, nearest
+                cs.append(_case("interp", fl, 1_050_000, tol, via=via, frame=frame, qclass="between", more=[
+                    _q("interp", 1_050_000, tol), _q("interp", 1_025_000, tol), _q("interp", 1_075_000, tol),
+                    _q("interp", 1_000_000, tol), _q("interp", 1_099_999, tol), _q("now", 1_000_010, tol),
+                    _q("interp", 1_050_000, tol)]))
+            # neighbouring intervals and back; a frame is the later neighbour first and the earlier one afterwards
+            cs.append(_case("interp", drive, 1_150_000, tol, via=via, frame=frame, qclass="between", more=[
+                _q("interp", 1_150_000, tol), _q("interp", 1_050_000, tol), _q("interp", 1_250_000, tol),
+                _q("interp", 1_100_000, tol), _q("interp", 1_199_999, tol), _q("now", 1_100_000, 0),
+                _q("interp", 1_150_000, tol)]))
+            # query on a loaded frame first (alpha = 0 writes that frame's own pose), then inside the interval
+            cs.append(_case("interp", drive, 1_100_000, tol, via=via, frame=frame, qclass="on", more=[
+                _q("interp", 1_100_000, tol), _q("interp", 1_160_000, tol), _q("interp", 1_100_000, tol)]))
+            # nearest-frame lookups interleaved with interpolated ones
+            cs.append(_case("now", drive, 1_100_010, tol, via=via, frame=frame, qclass="between", more=[
+                _q("interp", 1_130_000, tol), _q("now", 1_100_010, tol), _q("interp", 1_130_000, tol), _q("now", 1_100_010, tol)]))
+        cs.append(_case("direct", drive[:2], 1_050_000, 0, frame=frame, qclass="direct", more=[
+            _q("direct", 1_050_000), _q("direct", 1_000_000), _q("direct", 1_100_000), _q("direct", 1_020_000), _q("direct", 1_050_000)]))
     return cs
 
 
 # ----------------------------------------------------------------------------- histogram, shrinking
 
+def _ego_differs(case, ib, ia):
+    fs = case["frames"]
+    return fs[ib]["ego"] is not None and fs[ia]["ego"] is not None and fs[ib]["ego"] != fs[ia]["ego"]
+
+
+def _seq_branches(case, out):
+    """histogram keys of the call sequence (state / repeatability part of the check)"""
+    steps = _steps(case)
+    outs = out["steps"]
+    b = [f"seq:steps:{len(steps)}" if len(steps) < 6 else "seq:steps:6+"]
+    if len(steps) == 1:
+        return b
+    uniq, idx = _unique_queries(case)
+    b.append(f"seq:distinct-queries:{len(uniq)}")
+    b.append("seq:primary-repeated:" + ("err" if "err" in outs[0] else outs[0]["res"]))
+    in_q = _frames_in_quantifier(case)
+    b.append("seq:state-checked" if in_q else "seq:state-not-checked(outside-quantifier)")
+    if any(st["mode"] != steps[0]["mode"] for st in steps):
+        b.append("seq:mixed-modes")
+    for st in steps:
+        if "cls" in st:
+            b.append(f"seq:other-query:{st['cls']}")
+    # which loaded frame served as the earlier neighbour of an interpolation, how often and for how many distinct times
+    used = {}
+    for st, o in zip(steps, outs):
+        if o.get("res") == "interp":
+            ib, ia = (0, 1) if st["mode"] == "direct" else _neighbour_idx(_sub(case, st))
+            used.setdefault((ib, ia), []).append(st["t"])
+    n_int = sum(len(v) for v in used.values())
+    b.append(f"seq:interpolating-lookups:{min(n_int, 4)}" + ("+" if n_int >= 4 else ""))
+    for (ib, ia), tl in used.items():
+        if len(tl) < 2:
+            continue
+        key = f"seq:earlier-frame-reused:{case['frame']}" + (":ego-differs" if _ego_differs(case, ib, ia) else ":ego-same")
+        b.append(key)
+        if len(set(tl)) > 1:
+            b.append("seq:earlier-frame-reused:distinct-times")
+        if case["frames"][ib]["time"] in tl:
+            b.append("seq:earlier-frame-reused:incl-its-own-stamp")
+    if len(used) > 1:
+        b.append("seq:interpolations-in-several-intervals")
+        ibs = {k[0] for k in used}
+        if any(k[1] in ibs for k in used):
+            b.append("seq:frame-is-later-then-earlier-neighbour")
+    if any(o.get("res") == "orig" for o in outs) and used:
+        b.append("seq:loaded-frame-returned-and-interpolated")
+    if any(out["mut"]):
+        b.append("seq:MUTATED")
+    return b
+
+
 def branches(case, out):
+    if "steps" not in out:
+        return ["harness-error", "trivial"]
+    b = _branches1(case, out["steps"][0])
+    return b + _seq_branches(case, out)
+
+
+def _branches1(case, out):
     fs = case["frames"]
     b = [f"mode:{case['mode']}", f"via:{case['via']}", f"dataset:{case['frame']}", f"n:{len(fs)}",
          f"timeline:{case['timeline']}", f"query:{case['qclass']}"]
@@ -822,7 +1164,15 @@ def branches(case, out):
 
 def shrink(case):
     fs = case["frames"]
-    if case["mode"] != "direct":
+    more = list(case.get("more") or [])
+    if more:
+        # promote a later lookup to be the only one, then drop single steps
+        for st in more:
+            yield dict(case, mode=st["mode"], t=st["t"], thr=st.get("thr", 0), more=[])
+        for i in range(len(more)):
+            yield dict(case, more=more[:i] + more[i + 1:])
+        yield dict(case, mode=more[0]["mode"], t=more[0]["t"], thr=more[0].get("thr", 0), more=more[1:])
+    if case["mode"] != "direct" and all(st["mode"] != "direct" for st in more):
         for i in range(len(fs)):
             c = dict(case)
             c["frames"] = fs[:i] + fs[i + 1:]
@@ -849,7 +1199,7 @@ def shrink(case):
     if fs:
         base = min(f["time"] for f in fs)
         if base > 1000:
-            c = dict(case, t=case["t"] - base)
+            c = dict(case, t=case["t"] - base, more=[dict(st, t=st["t"] - base) for st in more])
             c["frames"] = [dict(f, time=f["time"] - base,
                                 objs=[dict(o, time=o["time"] - base) if "time" in o else o for o in f["objs"]]) for f in fs]
             yield c
